@@ -3,6 +3,7 @@ import PybtexModel.Drv.C06
 import PybtexModel.Drv.C08
 import PybtexModel.Drv.DbJson
 import PybtexModel.Model.Template
+import PybtexModel.Model.UnsrtStyle
 import PybtexModel.Model.Backends
 import PybtexModel.Spec.PyStyle
 open Lean
@@ -77,19 +78,98 @@ def rendersJ (t : RT) : Json :=
   obj [("html", r Backends.html), ("markdown", r Backends.markdown),
        ("latex", r (Backends.latex Backends.Latex.latexcodecEncode)), ("text", r Backends.plaintext)]
 
-/-- `style.format_bibliography(db, citations)` -/
+def fnName : ApplyFn → String
+  | .none => "none" | .dashify => "dashify" | .lower => "lower" | .capitalize => "capitalize"
+
+mutual
+/-- a template in the wire format of the harness translator (`tmpl` in harness/props/c07.py) -/
+def tJ : T → Json
+  | .lit r => obj [("t", Json.str "lit"), ("r", C08.treeJ r)]
+  | .raw s => obj [("t", Json.str "raw"), ("s", strToJson s)]
+  | .join sep sep2 last cs =>
+    obj [("t", Json.str "join"), ("sep", C08.treeJ sep), ("sep2", C08.treeJ sep2), ("last", C08.treeJ last), ("c", arr (tJL cs))]
+  | .together lt cs => obj [("t", Json.str "together"), ("last_tie", Json.bool lt), ("c", arr (tJL cs))]
+  | .sentence cf cap ap sep cs =>
+    obj [("t", Json.str "sentence"), ("capfirst", Json.bool cf), ("capitalize", Json.bool cap), ("add_period", Json.bool ap),
+         ("sep", C08.treeJ sep), ("c", arr (tJL cs))]
+  | .field n fn raw => obj [("t", Json.str "field"), ("name", strToJson n), ("fn", Json.str (fnName fn)), ("raw", Json.bool raw)]
+  | .names role sep sep2 last =>
+    obj [("t", Json.str "names"), ("role", strToJson role), ("sep", C08.treeJ sep), ("sep2", C08.treeJ sep2), ("last", C08.treeJ last)]
+  | .optional cs => obj [("t", Json.str "optional"), ("c", arr (tJL cs))]
+  | .firstOf cs => obj [("t", Json.str "first_of"), ("c", arr (tJL cs))]
+  | .tag n cs => obj [("t", Json.str "tag"), ("name", strToJson n), ("c", arr (tJL cs))]
+  | .href url ext cs => obj [("t", Json.str "href"), ("url", tJ url), ("external", Json.bool ext), ("c", arr (tJL cs))]
+  | .namePart before tie abbr cs =>
+    obj [("t", Json.str "name_part"), ("before", C08.treeJ before), ("tie", Json.bool tie), ("abbr", Json.bool abbr), ("c", arr (tJL cs))]
+def tJL : List T → List Json
+  | [] => []
+  | t :: ts => tJ t :: tJL ts
+end
+
+def terrJ (key : Str) : TErr → Json
+  | .missing f => arr [Json.str "FieldIsMissing", strToJson f, strToJson key]
+  | .unbalanced => arr [Json.str "PybtexSyntaxError", strToJson key]
+  | .outOfFuel => arr [Json.str "OUT-OF-FUEL"]
+
+/-- an optional string-valued keyword argument (absent or null = not given) -/
+def optStr (j : Json) (k : String) : Except String (Option Str) :=
+  match j.getObjVal? k with
+  | .error _ => pure none
+  | .ok .null => pure none
+  | .ok v => do pure (some (← jsonToStr v))
+
+def optBool (j : Json) (k : String) : Except String Bool :=
+  match j.getObjVal? k with
+  | .error _ => pure false
+  | .ok .null => pure false
+  | .ok v => v.getBool?
+
+/-- `citations`: a list of keys, or null = `format_bibliography(db)` without citations -/
+def optCitations (j : Json) : Except String (Option (List Str)) :=
+  match j.getObjVal? "citations" with
+  | .ok .null => pure none
+  | _ => do pure (some (← getStrList j "citations"))
+
+def nameStyleName : NameStyle → String | .plain => "plain" | .lastfirst => "lastfirst"
+def labelsName : Labels → String | .number => "number" | .alpha => "alpha"
+def sortingName : Sorting → String | .none => "none" | .authorYearTitle => "author_year_title"
+
+/-- the error of a failed run; an entry type without template is the `BibliographyDataError` of `format_entry` with
+the message the model composes (type looked up in the database: wire glue) -/
+def bibErrFullJ (pes : List PEntry) : BibErr → Json
+  | .noTemplate k =>
+    let ty := match pes.find? fun e => e.key = k with | some e => e.type | none => []
+    arr [strToJson Gen.noTemplateErrorClass, strToJson (Unsrt.noTemplateMessage ty k)]
+  | e => bibErrJ e
+
+def resultJ (pes : List PEntry) (r : List Report × Except BibErr (List Formatted)) : Json :=
+  let reports := DbJson.reportsJ r.1
+  match r.2 with
+  | .error e => obj [("error", bibErrFullJ pes e), ("reports", reports)]
+  | .ok fs =>
+    obj [("reports", reports),
+      ("entries", arr (fs.map fun f => arr [strToJson f.key, strToJson f.label, C08.treeJ f.text])),
+      ("render", arr (fs.map fun f => rendersJ f.text))]
+
+/-- `style.format_bibliography(db, citations)`.  `out` is computed by the evaluator on the templates the request
+carries (serialised from the live style objects); when the request names the style (`style`, `options`) the same is
+computed with everything inside the model (`formatBibliographyShipped`: templates of `Model/UnsrtStyle.lean`, name
+templates of `Model/NameStyle.lean`, configuration from the regenerated class attributes) and `spec.shipped` says where
+the two differ: `config` = the configuration the model derives, `templates` / `person_templates` = keys of the entries
+whose model template differs from the serialised one (with the model's tree), `out` = the model's result when it
+differs from `out` (null when equal). -/
 def pystyle (j : Json) : Except String Json := do
   let es ← (← getArr j "entries").mapM C06.parseEntry
   let dec ← parseDecode j
   let items ← parseItems j dec
-  let cites ← getStrList j "citations"
+  let citesOpt ← optCitations j
   let mc ← getInt j "min_crossrefs"
   let sorting ← parseSorting (← (← j.getObjVal? "sorting").getStr?)
   let labels ← parseLabels (← (← j.getObjVal? "labels").getStr?)
   let lookup := fun (k : Str) => (items.find? fun p => p.1 = k).map (·.2)
   let pes := es.map toPEntry
+  let cites := match citesOpt with | some c => c | none => Unsrt.allKeys pes
   let r := formatBibliography pes lookup cites mc sorting labels
-  let reports := DbJson.reportsJ r.1
   -- spec values for the oracle: the syntactic condition of C07_terminated for every serialised template, and the
   -- BibTeX alpha base labels (before the suffix letters) of the entries in output order
   let ends := arr (items.map fun p => arr [strToJson p.1, Json.bool (Spec.endsInSentence p.2.template)])
@@ -97,16 +177,42 @@ def pystyle (j : Json) : Except String Json := do
   let base : Json := match sorted.mapM formatLabel with
     | none => Json.null
     | some ls => arr ((sorted.zip ls).map fun p => arr [strToJson p.1.key, strToJson p.2])
-  let spec := obj [("ends_in_sentence", ends), ("alpha_base", base),
+  let out := resultJ pes r
+  -- everything inside the model
+  let shipped : Json ← match j.getObjVal? "style" with
+    | .error _ => pure Json.null
+    | .ok sj => do
+      let style ← jsonToStr sj
+      let o := (j.getObjVal? "options").toOption.getD (Json.mkObj [])
+      match Unsrt.configure style (← optStr o "label_style") (← optStr o "name_style") (← optStr o "sorting_style")
+          (← optBool o "abbreviate_names") with
+      | none => pure (obj [("config", Json.null)])
+      | some cfg =>
+        let tdiff := pes.filterMap fun e =>
+          let mine := optJ tJ (Unsrt.getTemplate e)
+          let theirs := optJ (fun (it : Item) => tJ it.template) (lookup e.key)
+          if mine.compress == theirs.compress then none else some (arr [strToJson e.key, mine])
+        let pdiff := pes.filterMap fun e =>
+          match lookup e.key with
+          | none => none
+          | some it =>
+            let theirs := arr (it.personTemplates.map fun p => arr [strToJson p.1, arr (tJL p.2)])
+            let mine : Json := match personTemplatesOf cfg.names dec cfg.abbr e.roles with
+              | .error err => terrJ e.key err
+              | .ok pts => arr (pts.map fun p => arr [strToJson p.1, arr (tJL p.2)])
+            if mine.compress == theirs.compress then none else some (arr [strToJson e.key, mine])
+        let full : Json := match Unsrt.formatBibliographyShipped cfg dec pes citesOpt mc with
+          | none => Json.str "OUTSIDE-DOMAIN"
+          | some r' => resultJ pes r'
+        pure (obj [("config", arr [Json.str (nameStyleName cfg.names), Json.str (labelsName cfg.labels),
+                                   Json.str (sortingName cfg.sorting), Json.bool cfg.abbr]),
+                   ("templates", arr tdiff), ("person_templates", arr pdiff),
+                   ("out", if full.compress == out.compress then Json.null else full)])
+  let spec := obj [("ends_in_sentence", ends), ("alpha_base", base), ("shipped", shipped),
     ("sort_keys", arr (sorted.map fun e =>
       let k := sortingKey e
       arr [strToJson e.key, strToJson k.1, strToJson k.2.1, strToJson k.2.2]))]
-  match r.2 with
-  | .error e => pure (obj [("out", obj [("error", bibErrJ e), ("reports", reports)]), ("spec", spec)])
-  | .ok fs =>
-    pure (obj [("out", obj [("reports", reports),
-      ("entries", arr (fs.map fun f => arr [strToJson f.key, strToJson f.label, C08.treeJ f.text])),
-      ("render", arr (fs.map fun f => rendersJ f.text))]), ("spec", spec)])
+  pure (obj [("out", out), ("spec", spec)])
 
 /-- one template on one entry (evaluator alone) -/
 def tmpleval (j : Json) : Except String Json := do
@@ -128,6 +234,77 @@ def tmpleval (j : Json) : Except String Json := do
     | .error .outOfFuel => pure (obj [("out", obj [("error", arr [Json.str "OUT-OF-FUEL"])])])
     | .ok t => pure (obj [("out", obj [("text", C08.treeJ t)])])
 
-def handlers : List (String × (Json → Except String Json)) := [("pystyle", pystyle), ("tmpleval", tmpleval)]
+/-! ### function-level ops -/
+
+/-- `style.get_<type>_template(entry)` of the model, with the property-relevant facts about it -/
+def styletemplate (j : Json) : Except String Json := do
+  let e := toPEntry (← C06.parseEntry (← j.getObjVal? "entry"))
+  match Unsrt.getTemplate e with
+  | none => pure (obj [("out", obj [("template", Json.null),
+      ("error", arr [strToJson Gen.noTemplateErrorClass, strToJson (Unsrt.noTemplateMessage e.type e.key)])])])
+  | some t =>
+    pure (obj [("out", obj [("template", tJ t)]),
+      ("spec", obj [("ends_in_sentence", Json.bool (Spec.endsInSentence t)),
+        ("required", arr ((Spec.requiredNodes t).map fun l => match l with
+          | .field n => arr [Json.str "field", strToJson n]
+          | .names r => arr [Json.str "names", strToJson r]))])])
+
+/-- `NameStyle().format(person, abbr)` of the name style registered as `style` -/
+def namestyle (j : Json) : Except String Json := do
+  let p ← C06.parsePerson (← j.getObjVal? "person")
+  let dec ← parseDecode j
+  let abbr ← getBool j "abbr"
+  match Unsrt.nameStyleOf (← getStr j "style") with
+  | none => throw "unknown name style"
+  | some st =>
+    match Tmpl.formatName st dec p abbr with
+    | .error e => pure (obj [("out", obj [("error", terrJ [] e)])])
+    | .ok t =>
+      -- the evaluated template (`.format()`): `str(text)`
+      let shown : Json := match eval evalFuel { entry := { key := [], type := [], fields := CIDict.empty, persons := CIDict.empty },
+                                                 db := none, personTemplates := [], decode := dec } t with
+        | .ok r => C08.treeJ r
+        | .error e => terrJ [] e
+      pure (obj [("out", obj [("template", tJ t), ("text", shown)])])
+
+/-- `SortingStyle().sorting_key(entry)` of author_year_title -/
+def sortkey (j : Json) : Except String Json := do
+  let e := toPEntry (← C06.parseEntry (← j.getObjVal? "entry"))
+  let k := sortingKey e
+  pure (obj [("out", obj [("key", arr [strToJson k.1, strToJson k.2.1, strToJson k.2.2])])])
+
+/-- the label styles on a list of entries: `format_label` per entry, `format_labels` of alpha and number -/
+def labelsOp (j : Json) : Except String Json := do
+  let es := (← (← getArr j "entries").mapM C06.parseEntry).map toPEntry
+  let lab := fun (o : Option (List Str)) => optJ strs o
+  pure (obj [("out", obj [("base", arr (es.map fun e => optJ strToJson (formatLabel e))),
+                          ("alpha", lab (alphaLabels es)), ("number", strs (numberLabels es.length))])])
+
+/-- the rich-text helpers of the template language on `Text.from_latex(value)` / on the plain string -/
+def richfn (j : Json) : Except String Json := do
+  let dec ← parseDecode j
+  let v ← getStr j "value"
+  let fn ← (← j.getObjVal? "fn").getStr?
+  let onText := fun (f : RT → RT) =>
+    match Tmpl.fromLatex (decodeOf dec v) with
+    | .error e => obj [("out", obj [("error", terrJ [] e)])]
+    | .ok r => obj [("out", obj [("text", C08.treeJ (f r))])]
+  match fn with
+  | "from_latex" => pure (onText id)
+  | "abbreviate" => pure (onText abbreviate)
+  | "dashify" => pure (onText (applyFn .dashify))
+  | "lower" => pure (onText (applyFn .lower))
+  | "capitalize" => pure (onText (applyFn .capitalize))
+  | "add_period" => pure (onText addPeriodT)
+  | "str_abbreviate" => pure (obj [("out", obj [("str", strToJson (abbreviateStr v))])])
+  | "strip_nonalnum" => pure (obj [("out", obj [("str", strToJson (stripNonalnum [v]))])])
+  | "tie_or_space" =>
+    let o ← optStr j "other"
+    let r := Tmpl.tieOrSpace (.str v) (.str ['~']) (.str [' ']) (o.map fun x => (.str x : RT))
+    pure (obj [("out", obj [("text", C08.treeJ r)])])
+  | _ => throw s!"unknown richfn {fn}"
+
+def handlers : List (String × (Json → Except String Json)) := [("pystyle", pystyle), ("tmpleval", tmpleval), ("styletemplate", styletemplate), ("namestyle", namestyle),
+   ("sortkey", sortkey), ("pylabels", labelsOp), ("richfn", richfn)]
 
 end Pybtex.Drv.C07
